@@ -216,7 +216,7 @@ Definition parse_cookie_sansio (cookie : str) : pres :=
          end
   end.
 
-(* http.parse_cookie(header: str): latin-1 encode then strict UTF-8 decode first *)
+(* http.parse_cookie(header: str): latin-1 encode, then UTF-8 decode with errors=replace *)
 Inductive eres := EOk (l : list (str * str)) | EUnicodeError | EUnsupported | EOutOfFuel.
 Definition parse_cookie_environ (header : str) : eres :=
   match header with
@@ -225,13 +225,11 @@ Definition parse_cookie_environ (header : str) : eres :=
     match latin1_encode header with
     | None => EUnicodeError
     | Some b =>
-      match utf8_decode b with
-      | None => EUnicodeError
-      | Some s => match parse_cookie_sansio s with
-                  | POk l => EOk l
-                  | PUnsupported => EUnsupported
-                  | POutOfFuel => EOutOfFuel
-                  end
+      (* cookie.encode("latin1").decode(errors="replace") *)
+      match parse_cookie_sansio (utf8_decode_replace b) with
+      | POk l => EOk l
+      | PUnsupported => EUnsupported
+      | POutOfFuel => EOutOfFuel
       end
     end
   end.
